@@ -5575,11 +5575,33 @@ def merge_parts(parts, reassign="voice"):
     # create a new part and fill it with all objects in other parts
     new_part = Part(parts[0].id, quarter_duration=int(lcm))
 
-    note_arrays = [part.note_array(include_staff=True) for part in parts]
-    # find the unique number of voices for each part (voice numbers start from 1)
-    unique_voices = [np.unique(note_array["voice"]) for note_array in note_arrays]
-    # find the unique number of staves for each part
-    unique_staves = [np.unique(note_array["staff"]) for note_array in note_arrays]
+
+    def staff_of(e):
+        # a missing staff number means staff 1
+        return e.staff if e.staff is not None else 1
+
+    # the voices used in each part, by notes and rests (voice numbers start from 1)
+    unique_voices = [
+        np.unique(
+            [
+                e.voice
+                for e in p.iter_all(GenericNote, include_subclasses=True)
+                if e.voice is not None
+            ]
+        ).astype(int)
+        for p in parts
+    ]
+    # the staves used in each part, by notes, rests, clefs and directions
+    unique_staves = [
+        np.unique(
+            [
+                staff_of(e)
+                for cls in (GenericNote, Words, Direction, Clef)
+                for e in p.iter_all(cls, include_subclasses=True)
+            ]
+        ).astype(int)
+        for p in parts
+    ]
     # find the maximum number of voices for each part (voice numbers start from 1)
     maximum_voices = [max(unique_voice, default=1) for unique_voice in unique_voices]
     # find the maximum number of staves for each part
@@ -5670,7 +5692,7 @@ def merge_parts(parts, reassign="voice"):
                         # new voice is computed as the sum of voices in staves in previous parts, plus the current
                         e.voice = voice_mapping[e.voice]
                     if isinstance(e, (GenericNote, Words, Direction, Clef)):
-                        e.staff = staff_mapping[e.staff]
+                        e.staff = staff_mapping[staff_of(e)]
                 new_part.add(e, start=new_start, end=new_end)
 
                 # new_part.add(copy.deepcopy(e), start=new_start, end=new_end)
